@@ -225,7 +225,8 @@ def run_case(case):
     err = np.abs(got - want)
     tol = TAU * scale * 100
     bad = np.where(ok_ref & ~(err <= tol))[0]
-    rep.nontrivial += int(np.sum((angles < 0) | (angles >= 2 * math.pi))) + max(0, len(angles) - ngrid)
+    special = np.arange(len(angles)) >= ngrid
+    rep.nontrivial += int(np.sum((angles < 0) | (angles >= 2 * math.pi) | special))
     rep.peak(label, float(np.nanmax(np.where(ok_ref, err, 0.0))) / tol if np.all(np.isfinite(np.where(ok_ref, err, 0.0))) else 1e9)
     if len(bad) == 0:
         rep.ok("radial-distance", int(ok_ref.sum()))
